@@ -382,8 +382,6 @@ func runC05Matrix(payload string) string {
 	if arity > 0 {
 		goal = atom(name).Apply(args...)
 	}
-	ctx, cancel := context.WithTimeout(context.Background(), c05GoalTimeout)
-	defer cancel()
 	// One conjunction (prelude goals, a marker, the goal under test), compiled as a whole: the variables the
 	// prelude binds are still unbound when the goal is compiled, so at run time the predicate receives the
 	// term in the encoding the prelude produced (Call would otherwise rebuild it while compiling the goal).
@@ -403,21 +401,28 @@ func runC05Matrix(payload string) string {
 		for k := len(c.prelude) - 1; k >= 0; k-- {
 			full = compound(",", c.prelude[k], full)
 		}
-	} else {
-		preludeOK = true
 	}
-	answered := false
-	_, ferr := engine.Call(&i.VM, full, func(*engine.Env) *engine.Promise {
-		answered = true
-		return engine.Bool(true)
-	}, nil).Force(ctx)
-	if !preludeOK {
-		return "PRELUDE-FAILED " + c05Result(false, ferr) + " ### nt=0"
+	// run 1: backtrack through up to 20 answers (redo paths of the predicate); run 2: the same goal once more
+	// on the interpreter as run 1 left it (state-dependent paths: asserted clauses, opened/closed streams, ops)
+	once := func(max int) string {
+		ctx, cancel := context.WithTimeout(context.Background(), c05GoalTimeout)
+		defer cancel()
+		preludeOK = len(c.prelude) == 0
+		n := 0
+		_, ferr := engine.Call(&i.VM, full, func(*engine.Env) *engine.Promise {
+			n++
+			return engine.Bool(n >= max)
+		}, nil).Force(ctx)
+		if !preludeOK {
+			return "PRELUDE-FAILED " + c05Result(false, ferr)
+		}
+		return c05Result(n > 0, ferr)
 	}
-	res := c05Result(answered, ferr)
+	res1 := once(20)
+	res2 := once(1)
 	nt := 0
-	if strings.HasPrefix(res, "err ") {
+	if strings.HasPrefix(res1, "err ") || strings.HasPrefix(res2, "err ") {
 		nt = 1
 	}
-	return fmt.Sprintf("%s ### nt=%d out=%s ar=%d", res, nt, c05Class(res), arity)
+	return fmt.Sprintf("%s ; %s ### nt=%d out=%s out2=%s ar=%d", res1, res2, nt, c05Class(res1), c05Class(res2), arity)
 }
